@@ -100,6 +100,7 @@ func (s *State) ExpandMacros(program ast.Node) ast.Node {
 		}
 
 		evalEnv := extendMacroEnv(macro, args)
+		evalEnv.Context = s.Context // macro bodies run under the same deadline / cancellation as the rest.
 
 		evaluated := evalEnv.Eval(macro.Body)
 
